@@ -14,38 +14,56 @@ theorem argsOf_isSome (heap : List Sim) (c : Inst) (h : c.sim < heap.length) :
   unfold argsOf
   rw [List.getElem?_eq_getElem h]; rfl
 
-/-- the repaired `derive` only ever appends to the heap, and the new instance refers to a live object -/
+/-- the repaired `derive` only ever appends to the heap, the new instance refers to a live
+    object and keeps its origin -/
 theorem derive_fixed_heap (heap : List Sim) (c : Inst) (d : Deriv) (h' : List Sim) (c' : Inst)
     (hc : c.sim < heap.length) (hd : derive true heap c d = some (h', c')) :
-    (∃ extra, h' = heap ++ extra) ∧ c'.sim < h'.length := by
+    (∃ extra, h' = heap ++ extra) ∧ c'.sim < h'.length ∧ c'.origin = c.origin := by
   cases d <;> simp only [derive] at hd
   case seed v =>
     rw [List.getElem?_eq_getElem hc] at hd
     simp only [↓reduceIte, Option.some.injEq, Prod.mk.injEq] at hd
     obtain ⟨rfl, rfl⟩ := hd
-    exact ⟨⟨_, rfl⟩, by simp⟩
+    exact ⟨⟨_, rfl⟩, by simp, rfl⟩
   case simulator sid =>
     split at hd
     · simp only [Option.some.injEq, Prod.mk.injEq] at hd
       obtain ⟨rfl, rfl⟩ := hd
-      exact ⟨⟨[], by simp⟩, by assumption⟩
+      exact ⟨⟨[], by simp⟩, by assumption, rfl⟩
     · cases hd
   all_goals
     simp only [Option.some.injEq, Prod.mk.injEq] at hd
     obtain ⟨rfl, rfl⟩ := hd
     first
-      | exact ⟨⟨[], by simp⟩, hc⟩
-      | exact ⟨⟨_, rfl⟩, by simp⟩
+      | exact ⟨⟨[], by simp⟩, hc, rfl⟩
+      | exact ⟨⟨_, rfl⟩, by simp, rfl⟩
+
+/-- every list of the state only grows -/
+structure Ext (s s' : State) : Prop where
+  heap : ∃ x, s'.heap = s.heap ++ x
+  insts : ∃ x, s'.insts = s.insts ++ x
+  log : ∃ x, s'.log = s.log ++ x
+  builders : ∃ x, s'.builders = s.builders ++ x
+  blog : ∃ x, s'.blog = s.blog ++ x
+
+theorem Ext.refl (s : State) : Ext s s :=
+  ⟨⟨[], by simp⟩, ⟨[], by simp⟩, ⟨[], by simp⟩, ⟨[], by simp⟩, ⟨[], by simp⟩⟩
+
+theorem Ext.trans {a b c : State} (h₁ : Ext a b) (h₂ : Ext b c) : Ext a c := by
+  obtain ⟨⟨x1, e1⟩, ⟨x2, e2⟩, ⟨x3, e3⟩, ⟨x4, e4⟩, ⟨x5, e5⟩⟩ := h₁
+  obtain ⟨⟨y1, f1⟩, ⟨y2, f2⟩, ⟨y3, f3⟩, ⟨y4, f4⟩, ⟨y5, f5⟩⟩ := h₂
+  exact ⟨⟨x1 ++ y1, by rw [f1, e1, List.append_assoc]⟩, ⟨x2 ++ y2, by rw [f2, e2, List.append_assoc]⟩,
+    ⟨x3 ++ y3, by rw [f3, e3, List.append_assoc]⟩, ⟨x4 ++ y4, by rw [f4, e4, List.append_assoc]⟩,
+    ⟨x5 ++ y5, by rw [f5, e5, List.append_assoc]⟩⟩
 
 theorem step_fixed (s s' : State) (op : Op) (hw : WF s) (hs : step true s op = some s') :
-    WF s' ∧ (∃ extra, s'.heap = s.heap ++ extra) ∧ (∃ more, s'.insts = s.insts ++ more) ∧
-    (∃ more, s'.log = s.log ++ more) := by
+    WF s' ∧ Ext s s' := by
   cases op with
   | newSim k sd =>
     simp only [step, Option.some.injEq] at hs
     subst hs
-    refine ⟨?_, ⟨_, rfl⟩, ⟨[], by simp⟩, ⟨[], by simp⟩⟩
-    intro c hc; have := hw c hc; simp; omega
+    refine ⟨?_, ⟨⟨_, rfl⟩, ⟨[], by simp⟩, ⟨[], by simp⟩, ⟨[], by simp⟩, ⟨[], by simp⟩⟩⟩
+    intro c hc; have := hw c hc; exact ⟨by simp; omega, this.2⟩
   | derive i d =>
     simp only [step] at hs
     cases hi : s.insts[i]? with
@@ -59,13 +77,13 @@ theorem step_fixed (s s' : State) (op : Op) (hw : WF s) (hs : step true s op = s
         obtain ⟨h', c'⟩ := r
         simp only [hd, Option.some.injEq] at hs
         subst hs
-        obtain ⟨⟨extra, he⟩, hc'⟩ := derive_fixed_heap s.heap c d h' c' (hw c hcm) hd
-        refine ⟨?_, ⟨extra, he⟩, ⟨[c'], rfl⟩, ⟨[], by simp⟩⟩
+        obtain ⟨⟨extra, he⟩, hc', ho⟩ := derive_fixed_heap s.heap c d h' c' (hw c hcm).1 hd
+        refine ⟨?_, ⟨⟨extra, he⟩, ⟨[c'], rfl⟩, ⟨[], by simp⟩, ⟨[], by simp⟩, ⟨[], by simp⟩⟩⟩
         intro x hx
         simp only [List.mem_append, List.mem_singleton] at hx
         rcases hx with hx | rfl
-        · have := hw x hx; simp only [he, List.length_append]; omega
-        · exact hc'
+        · have := hw x hx; exact ⟨by simp only [he, List.length_append]; omega, this.2⟩
+        · exact ⟨hc', by rw [ho]; exact (hw c hcm).2⟩
   | run i =>
     simp only [step] at hs
     cases hv : view s i with
@@ -73,26 +91,61 @@ theorem step_fixed (s s' : State) (op : Op) (hw : WF s) (hs : step true s op = s
     | some a =>
       simp only [hv, Option.some.injEq] at hs
       subst hs
-      exact ⟨hw, ⟨[], by simp⟩, ⟨[], by simp⟩, ⟨_, rfl⟩⟩
+      exact ⟨hw, ⟨⟨[], by simp⟩, ⟨[], by simp⟩, ⟨_, rfl⟩, ⟨[], by simp⟩, ⟨[], by simp⟩⟩⟩
+  | bderive i d =>
+    simp only [step] at hs
+    cases hb : s.builders[i]? with
+    | none => simp [hb] at hs
+    | some b =>
+      simp only [hb, Option.some.injEq] at hs
+      subst hs
+      exact ⟨hw, ⟨⟨[], by simp⟩, ⟨[], by simp⟩, ⟨[], by simp⟩, ⟨_, rfl⟩, ⟨[], by simp⟩⟩⟩
+  | build i n =>
+    simp only [step] at hs
+    cases hb : s.builders[i]? with
+    | none => simp [hb] at hs
+    | some b =>
+      simp only [hb, Option.some.injEq] at hs
+      subst hs
+      refine ⟨?_, ⟨⟨_, rfl⟩, ⟨_, rfl⟩, ⟨[], by simp⟩, ⟨[], by simp⟩, ⟨_, rfl⟩⟩⟩
+      intro x hx
+      simp only [List.mem_append, List.mem_singleton] at hx
+      rcases hx with hx | rfl
+      · have := hw x hx
+        exact ⟨by simp; omega, fun o ho => by have := this.2 o ho; simp; omega⟩
+      · exact ⟨by simp [defaultInst], fun o ho => by simp [defaultInst] at ho; subst ho; simp⟩
 
-theorem view_stable (s s' : State) (hw : WF s) (extra : List Sim) (more : List Inst)
-    (hh : s'.heap = s.heap ++ extra) (hi : s'.insts = s.insts ++ more) (j : Nat)
+theorem view_stable (s s' : State) (hw : WF s) (he : Ext s s') (j : Nat)
     (hj : j < s.insts.length) : view s' j = view s j := by
+  obtain ⟨extra, hh⟩ := he.heap
+  obtain ⟨more, hi⟩ := he.insts
   unfold view
   rw [hi, List.getElem?_append_left hj, hh]
   rw [List.getElem?_eq_getElem hj]
-  exact argsOf_append _ _ _ (hw _ (List.getElem_mem hj))
+  exact argsOf_append _ _ _ (hw _ (List.getElem_mem hj)).1
 
-theorem step_view (s s' : State) (op : Op) (hw : WF s) (hs : step true s op = some s') (j : Nat)
-    (hj : j < s.insts.length) : view s' j = view s j := by
-  obtain ⟨_, ⟨extra, hh⟩, ⟨more, hi⟩, _⟩ := step_fixed s s' op hw hs
-  exact view_stable s s' hw extra more hh hi j hj
+theorem originArgs_stable (s s' : State) (hw : WF s) (he : Ext s s') (j : Nat)
+    (hj : j < s.insts.length) : originArgs s' j = originArgs s j := by
+  obtain ⟨more, hi⟩ := he.insts
+  obtain ⟨mb, hb⟩ := he.blog
+  unfold originArgs
+  rw [hi, List.getElem?_append_left hj, List.getElem?_eq_getElem hj]
+  cases ho : (s.insts[j]).origin with
+  | none => simp only [ho]
+  | some o =>
+    have := (hw _ (List.getElem_mem hj)).2 o ho
+    simp only [ho, hb, List.getElem?_append_left this]
+
+theorem bview_stable (s s' : State) (he : Ext s s') (j : Nat) (hj : j < s.builders.length) :
+    bview s' j = bview s j := by
+  obtain ⟨mb, hb⟩ := he.builders
+  unfold bview
+  rw [hb, List.getElem?_append_left hj]
 
 theorem runOps_fixed (ops : List Op) : ∀ (s s' : State), WF s → runOps true s ops = some s' →
-    WF s' ∧ s.insts.length ≤ s'.insts.length ∧
-    (∀ j, j < s.insts.length → view s' j = view s j) := by
+    WF s' ∧ Ext s s' := by
   induction ops with
-  | nil => intro s s' hw h; simp only [runOps, Option.some.injEq] at h; subst h; exact ⟨hw, Nat.le_refl _, fun _ _ => rfl⟩
+  | nil => intro s s' hw h; simp only [runOps, Option.some.injEq] at h; subst h; exact ⟨hw, Ext.refl s⟩
   | cons op ops ih =>
     intro s s' hw h
     simp only [runOps] at h
@@ -100,24 +153,22 @@ theorem runOps_fixed (ops : List Op) : ∀ (s s' : State), WF s → runOps true 
     | none => simp [hs] at h
     | some s₁ =>
       simp only [hs] at h
-      obtain ⟨hw₁, _, ⟨more, hi⟩, _⟩ := step_fixed s s₁ op hw hs
-      obtain ⟨hw', hlen, hv⟩ := ih s₁ s' hw₁ h
-      have hl : s.insts.length ≤ s₁.insts.length := by rw [hi]; simp
-      refine ⟨hw', Nat.le_trans hl hlen, fun j hj => ?_⟩
-      rw [hv j (Nat.lt_of_lt_of_le hj hl)]
-      exact step_view s s₁ op hw hs j hj
+      obtain ⟨hw₁, e₁⟩ := step_fixed s s₁ op hw hs
+      obtain ⟨hw', e'⟩ := ih s₁ s' hw₁ h
+      exact ⟨hw', e₁.trans e'⟩
 
 /-- log invariant: everything logged for instance `j` is what `j` shows now -/
 def LogOK (s : State) : Prop := ∀ e ∈ s.log, e.1 < s.insts.length ∧ view s e.1 = some e.2
 
 theorem step_logOK (s s' : State) (op : Op) (hw : WF s) (hl : LogOK s) (hs : step true s op = some s') :
     LogOK s' := by
-  obtain ⟨_, ⟨extra, hh⟩, ⟨more, hi⟩, _⟩ := step_fixed s s' op hw hs
+  obtain ⟨_, he⟩ := step_fixed s s' op hw hs
   have old : ∀ e ∈ s.log, e.1 < s'.insts.length ∧ view s' e.1 = some e.2 := by
-    intro e he
-    obtain ⟨h1, h2⟩ := hl e he
+    intro e hel
+    obtain ⟨h1, h2⟩ := hl e hel
+    obtain ⟨more, hi⟩ := he.insts
     refine ⟨by rw [hi]; simp; omega, ?_⟩
-    rw [view_stable s s' hw extra more hh hi e.1 h1]; exact h2
+    rw [view_stable s s' hw he e.1 h1]; exact h2
   cases op with
   | newSim k sd =>
     simp only [step, Option.some.injEq] at hs; subst hs; exact old
@@ -131,7 +182,21 @@ theorem step_logOK (s s' : State) (op : Op) (hw : WF s) (hl : LogOK s) (hs : ste
         cases h2 : derive true s.heap c d with
         | none => simp [h2] at hs
         | some r => simp only [h2, Option.some.injEq] at hs; subst hs; rfl
-    intro e he; rw [hlog] at he; exact old e he
+    intro e hel; rw [hlog] at hel; exact old e hel
+  | bderive i d =>
+    have hlog : s'.log = s.log := by
+      simp only [step] at hs
+      cases h1 : s.builders[i]? with
+      | none => simp [h1] at hs
+      | some c => simp only [h1, Option.some.injEq] at hs; subst hs; rfl
+    intro e hel; rw [hlog] at hel; exact old e hel
+  | build i n =>
+    have hlog : s'.log = s.log := by
+      simp only [step] at hs
+      cases h1 : s.builders[i]? with
+      | none => simp [h1] at hs
+      | some c => simp only [h1, Option.some.injEq] at hs; subst hs; rfl
+    intro e hel; rw [hlog] at hel; exact old e hel
   | run i =>
     simp only [step] at hs
     cases hv : view s i with
@@ -139,10 +204,10 @@ theorem step_logOK (s s' : State) (op : Op) (hw : WF s) (hl : LogOK s) (hs : ste
     | some a =>
       simp only [hv, Option.some.injEq] at hs
       subst hs
-      intro e he
-      simp only [List.mem_append, List.mem_singleton] at he
-      rcases he with he | rfl
-      · exact hl e he
+      intro e hel
+      simp only [List.mem_append, List.mem_singleton] at hel
+      rcases hel with hel | rfl
+      · exact hl e hel
       · have hi' : i < s.insts.length := by
           unfold view at hv
           cases h1 : s.insts[i]? with
@@ -162,5 +227,197 @@ theorem runOps_logOK (ops : List Op) : ∀ (s s' : State), WF s → LogOK s → 
     | some s₁ =>
       simp only [hs] at h
       exact ih s₁ s' (step_fixed s s₁ op hw hs).1 (step_logOK s s₁ op hw hl hs) h
+
+
+theorem view_isSome (s : State) (hw : WF s) (j : Nat) (hj : j < s.insts.length) :
+    (view s j).isSome = true := by
+  unfold view
+  rw [List.getElem?_eq_getElem hj]
+  exact argsOf_isSome _ _ (hw _ (List.getElem_mem hj)).1
+
+/-- one derivation step seen by value (parent's view ↦ child's view), origin inherited -/
+theorem derive_step_pure (s s' : State) (i : Nat) (d : Deriv) (hw : WF s)
+    (hs : step true s (.derive i d) = some s') :
+    view s' s.insts.length = (view s i).bind (fun a => applyD (fun k => s.heap[k]?) a d) ∧
+    originArgs s' s.insts.length = originArgs s i ∧ i < s.insts.length := by
+  have hs0 := hs
+  simp only [step] at hs
+  cases hi : s.insts[i]? with
+  | none => simp [hi] at hs
+  | some c =>
+    have hil : i < s.insts.length := (List.getElem?_eq_some_iff.mp hi).1
+    have hc : c.sim < s.heap.length := (hw c (List.mem_of_getElem? hi)).1
+    simp only [hi] at hs
+    cases hd : derive true s.heap c d with
+    | none => simp [hd] at hs
+    | some r =>
+      obtain ⟨h', c'⟩ := r
+      simp only [hd, Option.some.injEq] at hs
+      subst hs
+      obtain ⟨_, _, ho⟩ := derive_fixed_heap s.heap c d h' c' hc hd
+      refine ⟨?_, ?_, hil⟩
+      · simp only [view, hi, List.getElem?_concat_length]
+        cases d <;> simp only [derive] at hd
+        case seed v =>
+          rw [List.getElem?_eq_getElem hc] at hd
+          simp only [↓reduceIte, Option.some.injEq, Prod.mk.injEq] at hd
+          obtain ⟨rfl, rfl⟩ := hd
+          simp [argsOf, List.getElem?_eq_getElem hc, applyD]
+        case simulator sid =>
+          split at hd
+          · rename_i hsid
+            simp only [Option.some.injEq, Prod.mk.injEq] at hd
+            obtain ⟨rfl, rfl⟩ := hd
+            simp [argsOf, List.getElem?_eq_getElem hc, List.getElem?_eq_getElem hsid, applyD]
+          · cases hd
+        all_goals
+          simp only [Option.some.injEq, Prod.mk.injEq] at hd
+          obtain ⟨rfl, rfl⟩ := hd
+          simp [argsOf, List.getElem?_eq_getElem hc, applyD]
+      · simp only [originArgs, hi, List.getElem?_concat_length, ho]
+
+theorem applyD_look_ext (heap x : List Sim) (a r : RunArgs) (d : Deriv)
+    (h : applyD (fun k => heap[k]?) a d = some r) : applyD (fun k => (heap ++ x)[k]?) a d = some r := by
+  cases d <;> simp only [applyD] at h ⊢ <;> try exact h
+  case simulator sid =>
+    cases hk : heap[sid]? with
+    | none => simp [hk] at h
+    | some v =>
+      have hl : sid < heap.length := (List.getElem?_eq_some_iff.mp hk).1
+      rw [List.getElem?_append_left hl, hk]; rw [hk] at h; exact h
+
+theorem foldD_look_ext (heap x : List Sim) (ds : List Deriv) : ∀ (a r : RunArgs),
+    foldD (fun k => heap[k]?) a ds = some r → foldD (fun k => (heap ++ x)[k]?) a ds = some r := by
+  induction ds with
+  | nil => intro a r h; exact h
+  | cons d ds ih =>
+    intro a r h
+    simp only [foldD] at h ⊢
+    cases ha : applyD (fun k => heap[k]?) a d with
+    | none => simp [ha] at h
+    | some a' =>
+      simp only [ha] at h
+      rw [applyD_look_ext heap x a a' d ha]
+      exact ih a' r h
+
+/-- following an instance derivation path (with arbitrary operations in between): the final
+    instance shows the fold of the path over what the start instance showed -/
+theorem chainD_pure (path : List (List Op × Deriv)) : ∀ (s sf : State) (i j : Nat) (a : RunArgs),
+    WF s → i < s.insts.length → view s i = some a → chainD s i path = some (sf, j) →
+    WF sf ∧ Ext s sf ∧ j < sf.insts.length ∧
+    (∃ r, view sf j = some r ∧ foldD (fun k => sf.heap[k]?) a (path.map (·.2)) = some r) ∧
+    originArgs sf j = originArgs s i := by
+  induction path with
+  | nil =>
+    intro s sf i j a hw hi hv h
+    simp only [chainD, Option.some.injEq, Prod.mk.injEq] at h
+    obtain ⟨rfl, rfl⟩ := h
+    exact ⟨hw, Ext.refl _, hi, ⟨a, hv, rfl⟩, rfl⟩
+  | cons jd rest ih =>
+    intro s sf i j a hw hi hv h
+    obtain ⟨junk, d⟩ := jd
+    simp only [chainD] at h
+    cases h1 : runOps true s junk with
+    | none => simp [h1] at h
+    | some s₁ =>
+      simp only [h1] at h
+      cases h2 : step true s₁ (.derive i d) with
+      | none => simp [h2] at h
+      | some s₂ =>
+        simp only [h2] at h
+        obtain ⟨hw₁, e₁⟩ := runOps_fixed junk s s₁ hw h1
+        obtain ⟨hw₂, e₂⟩ := step_fixed s₁ s₂ _ hw₁ h2
+        obtain ⟨p1, p2, _⟩ := derive_step_pure s₁ s₂ i d hw₁ h2
+        have hv₁ : view s₁ i = some a := by rw [view_stable s s₁ hw e₁ i hi]; exact hv
+        have hnew : s₁.insts.length < s₂.insts.length := by
+          obtain ⟨x, hx⟩ := e₂.insts
+          have : step true s₁ (.derive i d) = some s₂ := h2
+          simp only [step] at this
+          cases hq : s₁.insts[i]? with
+          | none => simp [hq] at this
+          | some c =>
+            simp only [hq] at this
+            cases hd : derive true s₁.heap c d with
+            | none => simp [hd] at this
+            | some r => simp only [hd, Option.some.injEq] at this; subst this; simp
+        rw [hv₁] at p1
+        simp only [Option.bind_some] at p1
+        have hsome := view_isSome s₂ hw₂ _ hnew
+        cases hv₂ : view s₂ s₁.insts.length with
+        | none => simp [hv₂] at hsome
+        | some a₂ =>
+          rw [hv₂] at p1
+          obtain ⟨hwf, ef, hj, ⟨r, hr1, hr2⟩, ho⟩ := ih s₂ sf s₁.insts.length j a₂ hw₂ hnew hv₂ h
+          refine ⟨hwf, (e₁.trans e₂).trans ef, hj, ⟨r, hr1, ?_⟩, ?_⟩
+          · simp only [List.map_cons, foldD]
+            obtain ⟨x, hx⟩ := (e₂.trans ef).heap
+            rw [hx, applyD_look_ext s₁.heap x a a₂ d p1.symm]
+            rw [← hx]; exact hr2
+          · rw [ho, p2]; exact originArgs_stable s s₁ hw e₁ i hi
+
+/-- one builder derivation seen by value -/
+theorem bderive_step_pure (s s' : State) (i : Nat) (d : BDeriv)
+    (hs : step true s (.bderive i d) = some s') :
+    bview s' s.builders.length = (bview s i).map (fun a => applyB a d) ∧ i < s.builders.length := by
+  simp only [step] at hs
+  cases hb : s.builders[i]? with
+  | none => simp [hb] at hs
+  | some b =>
+    simp only [hb, Option.some.injEq] at hs
+    subst hs
+    refine ⟨?_, (List.getElem?_eq_some_iff.mp hb).1⟩
+    simp only [bview, hb, List.getElem?_concat_length, Option.map_some, Option.some.injEq]
+    cases d <;> simp only [bderive, buildArgs, applyB]
+    case buildArg k v => cases b.args <;> simp [dictSet]
+
+theorem chainB_pure (path : List (List Op × BDeriv)) : ∀ (s sf : State) (i j : Nat) (a : BuildArgs),
+    WF s → i < s.builders.length → bview s i = some a → chainB s i path = some (sf, j) →
+    WF sf ∧ Ext s sf ∧ j < sf.builders.length ∧
+    bview sf j = some ((path.map (·.2)).foldl applyB a) := by
+  induction path with
+  | nil =>
+    intro s sf i j a hw hi hv h
+    simp only [chainB, Option.some.injEq, Prod.mk.injEq] at h
+    obtain ⟨rfl, rfl⟩ := h
+    exact ⟨hw, Ext.refl _, hi, hv⟩
+  | cons jd rest ih =>
+    intro s sf i j a hw hi hv h
+    obtain ⟨junk, d⟩ := jd
+    simp only [chainB] at h
+    cases h1 : runOps true s junk with
+    | none => simp [h1] at h
+    | some s₁ =>
+      simp only [h1] at h
+      cases h2 : step true s₁ (.bderive i d) with
+      | none => simp [h2] at h
+      | some s₂ =>
+        simp only [h2] at h
+        obtain ⟨hw₁, e₁⟩ := runOps_fixed junk s s₁ hw h1
+        obtain ⟨hw₂, e₂⟩ := step_fixed s₁ s₂ _ hw₁ h2
+        obtain ⟨p1, _⟩ := bderive_step_pure s₁ s₂ i d h2
+        have hv₁ : bview s₁ i = some a := by rw [bview_stable s s₁ e₁ i hi]; exact hv
+        rw [hv₁] at p1
+        have hnew : s₁.builders.length < s₂.builders.length := by
+          have : step true s₁ (.bderive i d) = some s₂ := h2
+          simp only [step] at this
+          cases hq : s₁.builders[i]? with
+          | none => simp [hq] at this
+          | some c => simp only [hq, Option.some.injEq] at this; subst this; simp
+        obtain ⟨hwf, ef, hj, hr⟩ := ih s₂ sf s₁.builders.length j (applyB a d) hw₂ hnew p1 h
+        exact ⟨hwf, (e₁.trans e₂).trans ef, hj, by simpa using hr⟩
+
+/-- `build`: the new instance shows the defaults and remembers the builder's by-value arguments -/
+theorem build_step_pure (s s' : State) (i n : Nat) (hs : step true s (.build i n) = some s') :
+    view s' s.insts.length = some (defaultArgs n) ∧
+    originArgs s' s.insts.length = (bview s i).map some ∧ i < s.builders.length := by
+  simp only [step] at hs
+  cases hb : s.builders[i]? with
+  | none => simp [hb] at hs
+  | some b =>
+    simp only [hb, Option.some.injEq] at hs
+    subst hs
+    refine ⟨?_, ?_, (List.getElem?_eq_some_iff.mp hb).1⟩
+    · simp [view, argsOf, defaultInst, defaultArgs]
+    · simp [originArgs, defaultInst, bview, hb]
 
 end GuppyVerif.EmuConfig
